@@ -27,6 +27,9 @@ pub enum Kind {
     PerLayer,
     /// registry().with(reload(L1.with_filter(filter))).with(L2 plain), changed through modify()
     FilteredInside,
+    /// registry().with(L1).with(reload(Option<global filter layer>)): an optional global filter on
+    /// top of a stack that gives no level hint of its own; reloaded between Some(_) and None
+    GlobalOption,
 }
 
 type C1 = Registry;
@@ -35,6 +38,16 @@ enum Handle {
     Global(reload::Handle<BS<C1>>),
     PerLayer(reload::Handle<BF<C1>>),
     Inside(reload::Handle<Filtered<FL, BF<C1>, C1>>),
+    GlobalOption(reload::Handle<Option<BS<C2>>>),
+}
+
+type C2 = tracing_subscriber::subscribe::Layered<FL, Registry>;
+
+fn build_global_opt(f: &FilterD) -> Option<BS<C2>> {
+    match f {
+        FilterD::None_ => None,
+        f => Some(stack::build_node::<C2>(&stack::Node::G(f.clone()))),
+    }
 }
 
 fn build_global(f: &FilterD) -> BS<C1> {
@@ -55,6 +68,10 @@ fn build(kind: Kind, f: &FilterD) -> (Dispatch, Handle) {
             let (l, h) = reload::Subscriber::new(FL { id: 1 }.with_filter(stack::build_filter::<C1>(f)));
             (Dispatch::new(Registry::default().with(l).with(FL { id: 2 })), Handle::Inside(h))
         }
+        Kind::GlobalOption => {
+            let (l, h) = reload::Subscriber::new(build_global_opt(f));
+            (Dispatch::new(Registry::default().with(FL { id: 1 }).with(l)), Handle::GlobalOption(h))
+        }
     }
 }
 
@@ -63,14 +80,40 @@ fn do_reload(h: &Handle, f: &FilterD) -> Result<(), String> {
         Handle::Global(h) => h.reload(build_global(f)).map_err(|e| format!("{} (is_dropped={})", e, e.is_dropped())),
         Handle::PerLayer(h) => h.reload(stack::build_filter::<C1>(f)).map_err(|e| format!("{} (is_dropped={})", e, e.is_dropped())),
         Handle::Inside(h) => h.modify(|fl| *fl.filter_mut() = stack::build_filter::<C1>(f)).map_err(|e| format!("{} (is_dropped={})", e, e.is_dropped())),
+        Handle::GlobalOption(h) => h.reload(build_global_opt(f)).map_err(|e| format!("{} (is_dropped={})", e, e.is_dropped())),
     }
+}
+
+/// reload through `modify` (what `reload` itself does), noting inside the closure - i.e. while the
+/// write lock is held - who wrote, so that the last writer is known when two reloads overlap
+fn do_modify_marked(h: &Handle, f: &FilterD, order: &Mutex<Vec<u8>>, who: u8) -> Result<(), String> {
+    let note = || order.lock().unwrap().push(who);
+    match h {
+        Handle::Global(h) => h.modify(|l| {
+            note();
+            *l = build_global(f)
+        }),
+        Handle::PerLayer(h) => h.modify(|x| {
+            note();
+            *x = stack::build_filter::<C1>(f)
+        }),
+        Handle::Inside(h) => h.modify(|fl| {
+            note();
+            *fl.filter_mut() = stack::build_filter::<C1>(f)
+        }),
+        Handle::GlobalOption(h) => h.modify(|l| {
+            note();
+            *l = build_global_opt(f)
+        }),
+    }
+    .map_err(|e| format!("{} (is_dropped={})", e, e.is_dropped()))
 }
 
 /// which layers receive `m` when the reloadable filter currently is `f`
 fn receivers(kind: Kind, f: &FilterD, m: &Meta, ctx: &[&'static str]) -> Vec<u8> {
     let ok = f.accepts(m, ctx);
     match kind {
-        Kind::Global => {
+        Kind::Global | Kind::GlobalOption => {
             if ok {
                 vec![1]
             } else {
@@ -131,6 +174,10 @@ pub fn values(tier: Tier) -> Vec<FilterD> {
 /// values usable when the filter is a per-layer filter (adds None and closures)
 pub fn values_for(kind: Kind, tier: Tier) -> Vec<FilterD> {
     let mut v = values(tier);
+    if kind == Kind::GlobalOption {
+        v.push(FilterD::None_);
+        return v;
+    }
     if kind != Kind::Global {
         v.push(FilterD::None_);
         v.push(FilterD::Fn(0, None));
@@ -278,7 +325,7 @@ fn run_history(cfg: &HCfg, history: &[String]) -> StepOut {
                 // context-dependent closures ask the registry, which knows every span
                 let own_state = matches!(vals[cur], FilterD::EnvSp);
                 let known: Vec<(usize, Vec<u8>)> = spans[t].iter().zip(seen_by_filter[t].iter()).filter(|(_, k)| **k || !own_state).map(|(s, _)| s.clone()).collect();
-                let ctx: Vec<&'static str> = if cfg.kind == Kind::Global { known.iter().filter(|s| !s.1.is_empty()).map(|s| cs[s.0].meta.name).collect() } else { vis(1, &known) };
+                let ctx: Vec<&'static str> = if matches!(cfg.kind, Kind::Global | Kind::GlobalOption) { known.iter().filter(|s| !s.1.is_empty()).map(|s| cs[s.0].meta.name).collect() } else { vis(1, &known) };
                 match p[1] {
                     "ev" => {
                         let i: usize = p[2].parse().unwrap();
@@ -462,6 +509,9 @@ pub struct Scenario {
     /// emitters' first hits come first and race with each other)
     #[serde(default)]
     pub reload_last: bool,
+    /// a second, concurrent reload (to this value) on its own thread
+    #[serde(default)]
+    pub second: Option<FilterD>,
 }
 
 #[derive(Clone, Debug)]
@@ -491,13 +541,23 @@ fn run_scenario(sc: &Scenario, prefix: Vec<u8>, record_steps: bool) -> SResult {
     stack::flog_clear();
     let marks: Arc<Mutex<Vec<Mark>>> = Arc::new(Mutex::new(vec![]));
     let handle = Arc::new(handle);
+    let order: Arc<Mutex<Vec<u8>>> = Arc::new(Mutex::new(vec![]));
     let mut bodies: Vec<Box<dyn FnOnce() + Send>> = vec![];
     {
         let (h, m, new) = (handle.clone(), marks.clone(), sc.new.clone());
+        let (order1, two) = (order.clone(), sc.second.is_some());
         bodies.push(Box::new(move || {
             m.lock().unwrap().push(Mark { at: stack::flog_len(), what: "reload.start".into(), tid: 0, cs: 0 });
-            let r = do_reload(&h, &new);
+            let r = if two { do_modify_marked(&h, &new, &order1, 0) } else { do_reload(&h, &new) };
             m.lock().unwrap().push(Mark { at: stack::flog_len(), what: if r.is_ok() { "reload.done".into() } else { "reload.err".into() }, tid: 0, cs: 0 });
+        }));
+    }
+    if let Some(second) = sc.second.clone() {
+        let (h, order2, m) = (handle.clone(), order.clone(), marks.clone());
+        bodies.push(Box::new(move || {
+            if do_modify_marked(&h, &second, &order2, 1).is_err() {
+                m.lock().unwrap().push(Mark { at: stack::flog_len(), what: "reload.err".into(), tid: 0, cs: 0 });
+            }
         }));
     }
     for (k, ems) in sc.emitters.iter().enumerate() {
@@ -544,9 +604,14 @@ fn run_scenario(sc: &Scenario, prefix: Vec<u8>, record_steps: bool) -> SResult {
         if marks.iter().any(|m| m.what == "reload.err") {
             v.push("reload on a live collector returned an error".into());
         }
+        // with two overlapping reloads the value in force afterwards is the one written last
+        let final_value: FilterD = match (&sc.second, order.lock().unwrap().last()) {
+            (Some(second), Some(1)) => second.clone(),
+            _ => sc.new.clone(),
+        };
         let mut i = 0;
         while i < marks.len() {
-            if marks[i].what == "emit.start" {
+            if marks[i].what == "emit.start" && sc.second.is_none() {
                 let s = &marks[i];
                 let e = marks[i + 1..].iter().find(|m| m.what == "emit.end" && m.tid == s.tid).unwrap();
                 let meta = &cs[s.cs].meta;
@@ -617,14 +682,14 @@ fn run_scenario(sc: &Scenario, prefix: Vec<u8>, record_steps: bool) -> SResult {
                     g.sort();
                     g
                 };
-                let mut want = receivers(sc.kind, &sc.new, &c.meta, &[]);
+                let mut want = receivers(sc.kind, &final_value, &c.meta, &[]);
                 if sc.f17_open {
-                    if let Some(r) = receivers_f17(sc.kind, &sc.new, &c.meta, &[]) {
+                    if let Some(r) = receivers_f17(sc.kind, &final_value, &c.meta, &[]) {
                         want = r;
                     }
                 }
                 if got != want {
-                    v.push(format!("after the race, event {} (#{}) reaches {:?}; the new value {} says {:?}", c.meta.name, k, got, sc.new.short(), want));
+                    v.push(format!("after the race, event {} (#{}) reaches {:?}; the new value {} says {:?}", c.meta.name, k, got, final_value.short(), want));
                 }
             }
         });
@@ -653,6 +718,7 @@ pub fn scenarios(tier: Tier) -> Vec<Scenario> {
                 warm: vec![1],
                 emitters: vec![vec![(false, 1)], vec![(false, 4)]],
                 reload_last: false,
+                second: None,
             });
             // two first hits of different callsites race with each other; the reload comes last by default
             v.push(Scenario {
@@ -664,6 +730,19 @@ pub fn scenarios(tier: Tier) -> Vec<Scenario> {
                 warm: vec![],
                 emitters: vec![vec![(false, 4)], vec![(false, 2)]],
                 reload_last: true,
+                second: None,
+            });
+            // two overlapping reloads (old -> new || old -> back to old's opposite) and an emitter
+            v.push(Scenario {
+                f17_open: false,
+                name: format!("{:?} {}->{} || ->{} two reloads || cached event", kind, old.short(), new.short(), old.short()),
+                kind,
+                old: old.clone(),
+                new: new.clone(),
+                warm: vec![1, 4],
+                emitters: vec![vec![(false, 1)]],
+                reload_last: false,
+                second: Some(old.clone()),
             });
             if tier == Tier::Thorough || kind != Kind::Global {
                 v.push(Scenario {
@@ -675,6 +754,7 @@ pub fn scenarios(tier: Tier) -> Vec<Scenario> {
                     warm: vec![1, 6],
                     emitters: vec![vec![(true, 6)], vec![(false, 1), (false, 1)]],
                     reload_last: false,
+                    second: None,
                 });
             }
         }
@@ -729,7 +809,7 @@ pub fn run(args: &Args) -> i32 {
     // ---- H ----
     let depth = std::env::var("VERIF_DEPTH").ok().and_then(|s| s.parse().ok()).unwrap_or(args.tier.pick(4, 6));
     let mut hjobs = vec![];
-    for kind in [Kind::Global, Kind::PerLayer, Kind::FilteredInside] {
+    for kind in [Kind::Global, Kind::PerLayer, Kind::FilteredInside, Kind::GlobalOption] {
         for initial in 0..values_for(kind, args.tier).len() {
             hjobs.push(HCfg { f17_open, kind, initial, depth, tier_thorough: args.tier == Tier::Thorough });
         }
